@@ -136,7 +136,7 @@ def work_public(chunk):
 
         from gufo.snmp import SnmpVersion
 
-        agent_kw = dict(version=SnmpVersion.v3, user=user, timeout=0.05)
+        agent_kw = dict(version=SnmpVersion.v3, user=user, timeout=0.4)
         if not disc:
             agent_kw["engine_id"] = eid
         w = None
